@@ -236,7 +236,14 @@ where
                 debug!(
                     channel_filter_key = %key,
                     "All channels dropped");
-                self_.key_counts.remove(&key);
+                // A new channel with the same key may have been admitted after this notification
+                // was sent; its (live) tracker must stay in the map, or the channels it counts
+                // would be forgotten.
+                if let Entry::Occupied(o) = self_.key_counts.entry(key) {
+                    if o.get().strong_count() == 0 {
+                        o.remove();
+                    }
+                }
                 self_.key_counts.compact(0.1);
                 Poll::Ready(())
             }
